@@ -931,6 +931,9 @@ func (s *State) extendFunctionEnv(
 	var newBody ast.Node
 	newBody = fn.Body
 	for paramIdx, param := range params {
+		if slices.ContainsFunc(params[paramIdx+1:], func(later ast.Node) bool { return later.Value().Literal() == param.Value().Literal() }) {
+			continue // func f(a, a): the name is the last parameter of that name (with or without registers).
+		}
 		// By definition function parameters are local copies, deref argument values:
 		pval := object.Value(args[paramIdx])
 		needVariable := true
